@@ -422,3 +422,49 @@ def zoom_slice_form(b, lp, idx, nm):
     want = [A.add(A.tmin(L, A.const(LEN - 1)), A.const(1)), A.tmin(A.add(L, A.const(1)), A.const(LEN))]
     ok = any(A.eq(bounds[0], w) for w in want)
     return None if ok else "levels [%s..] are emptied, expected [min(limit, %d) + 1..]" % (A.show(bounds[0]), LEN - 1)
+
+
+def pyramid_union_rule(ck, P, rule):
+    """TileBBoxPyramid::include_bbox_pyramid is a per-level bounding union over EVERY level of the other pyramid: the loop runs
+    over other.iter_levels() (all non-empty levels) or over all level pairs, with no skip/take adaptor and no exit, and merges
+    into the level the visited box belongs to; iter_levels itself filters on emptiness only."""
+    ib = [b for b in P.bodies if b["q"].endswith("TileBBoxPyramid::include_bbox_pyramid")]
+    il = [b for b in P.bodies if b["q"].endswith("TileBBoxPyramid::iter_levels")]
+    if not ck.anchor(rule, "TileBBoxPyramid::include_bbox_pyramid / iter_levels", ib + il, 2):
+        return
+    b = ib[0]
+    loops = [n for n in ir.walk_nodes(b["body"]) if n.get("k") == "for"]
+    ok = len(loops) == 1
+    why = "%d loops" % len(loops)
+    if ok:
+        lp = loops[0]
+        names = [y["name"] for y in ir.walk_nodes(lp["iter"]) if y.get("k") == "mcall"]
+        lets = lets_of(b)
+        h = ir.local_hid(lp["iter"])
+        if h is not None and h in lets:
+            names += [y["name"] for y in ir.walk_nodes(lets[h]) if y.get("k") == "mcall"]
+        bad = [nm for nm in names if nm not in ("iter_levels", "iter", "iter_mut", "zip", "enumerate", "into_iter")]
+        esc = [y["k"] for y in ir.walk_nodes(lp["body"]) if y.get("k") in ("break", "continue", "ret", "if", "match")]
+        inc = [y for y in ir.walk_nodes(lp["body"]) if y.get("k") == "mcall" and y.get("name") in ("include_bbox",)]
+        lv = ir.pat_binds(lp["pat"])
+        tgt_ok = False
+        if len(inc) == 1:
+            r = ir.strip(inc[0]["recv"])
+            if r.get("k") == "index":       # self.level_bbox[bbox.level as usize]
+                i_ = ir.strip(r["i"])
+                while i_ is not None and i_.get("k") == "cast":
+                    i_ = ir.strip(i_["e"])
+                tgt_ok = ir.place_str(r["e"]) == "self.level_bbox" and i_ is not None and i_.get("k") == "field" and i_.get("name") == "level" and ir.local_hid(i_["e"]) in {x["hid"] for x in lv} and \
+                    ir.local_hid(inc[0]["a"][0]) == ir.local_hid(i_["e"])
+            else:                            # zipped pair (own, other)
+                tgt_ok = len(lv) == 2 and ir.local_hid(r) == lv[0]["hid"] and ir.local_hid(inc[0]["a"][0]) == lv[1]["hid"] and "zip" in names
+        ok = not bad and not esc and tgt_ok and ("iter_levels" in names or "zip" in names)
+        why = "adaptors %s, control flow in the loop %s, merge target ok=%s" % (bad or names, esc, tgt_ok)
+    ck.check(ok, rule, b["q"] + "|all-levels", "include_bbox_pyramid merges every non-empty level of the other pyramid into the same level of this one",
+             "include_bbox_pyramid does not merge every level of the other pyramid (%s): levels behind a zoom gap are missing from the advertised union" % why, ir.loc(b))
+    b2 = il[0]
+    flt = [y for y in ir.walk_nodes(b2["body"]) if y.get("k") == "mcall" and y.get("name") not in ("iter",)]
+    okf = len(flt) == 1 and flt[0]["name"] == "filter" and flt[0]["a"] and flt[0]["a"][0].get("k") == "closure" and \
+        ir.unparen(flt[0]["a"][0]["body"]).get("k") == "un" and ir.contains(flt[0]["a"][0]["body"], lambda y: y.get("k") == "mcall" and y.get("name") == "is_empty")
+    okf = okf or (len(flt) == 2 and sorted(y["name"] for y in flt) == ["filter", "is_empty"])
+    ck.check(okf, rule, b2["q"], "iter_levels yields exactly the non-empty levels", "iter_levels does not yield exactly the non-empty levels (%s)" % [y["name"] for y in flt], ir.loc(b2))
